@@ -165,6 +165,81 @@ type vc18U struct {
 	st     map[string]int
 	uniq   uint64
 	dead   bool // the real code refused one of its own blocks: stop this universe
+	assetWeight int // share of asset transactions (out of 20 + assetWeight)
+	aids   []uint64 // asset ids known so far (ascending), incl. predicted ids of groups that were tried
+}
+
+func (u *vc18U) aidList() []interface{} {
+	var l []interface{}
+	for _, x := range u.aids {
+		l = append(l, x)
+	}
+	return l
+}
+
+func (u *vc18U) addAid(id uint64) {
+	for _, x := range u.aids {
+		if x == id {
+			return
+		}
+	}
+	u.aids = append(u.aids, id)
+	sort.Slice(u.aids, func(i, j int) bool { return u.aids[i] < u.aids[j] })
+}
+
+func (u *vc18U) aparams(p basics.AssetParams) []interface{} {
+	extra := 0
+	if p.Decimals != 0 || p.UnitName != "" || p.AssetName != "" || p.URL != "" || p.MetadataHash != ([32]byte{}) {
+		extra = int(p.Decimals) + 1
+	}
+	return vL(p.Total, p.DefaultFrozen, u.id(p.Manager), u.id(p.Reserve), u.id(p.Freeze), u.id(p.Clawback), extra)
+}
+
+// sparse asset view: every (account, known asset) for which params or a holding exist, and
+// the creator of every known asset
+func (u *vc18U) aview(getP func(basics.Address, basics.AssetIndex) (basics.AssetParams, bool), getH func(basics.Address, basics.AssetIndex) (basics.AssetHolding, bool),
+	getC func(basics.AssetIndex) (basics.Address, bool)) ([]interface{}, []interface{}) {
+	var av, cr []interface{}
+	for i, a := range u.addrs {
+		for _, id := range u.aids {
+			p, okp := getP(a, basics.AssetIndex(id))
+			h, okh := getH(a, basics.AssetIndex(id))
+			if !okp && !okh {
+				continue
+			}
+			var pt, ht interface{} = 0, 0
+			if okp {
+				pt = u.aparams(p)
+			}
+			if okh {
+				ht = vL(h.Amount, h.Frozen)
+			}
+			av = append(av, vL(i+1, id, pt, ht))
+		}
+	}
+	for _, id := range u.aids {
+		if c, ok := getC(basics.AssetIndex(id)); ok {
+			cr = append(cr, vL(id, u.id(c)))
+		}
+	}
+	return av, cr
+}
+
+func (u *vc18U) ledgerAview() ([]interface{}, []interface{}) {
+	l := u.l
+	return u.aview(
+		func(a basics.Address, i basics.AssetIndex) (basics.AssetParams, bool) {
+			p, ok := l.aparams[ledgercore.AccountAsset{Address: a, Asset: i}]
+			return p, ok
+		},
+		func(a basics.Address, i basics.AssetIndex) (basics.AssetHolding, bool) {
+			h, ok := l.holdings[ledgercore.AccountAsset{Address: a, Asset: i}]
+			return h, ok
+		},
+		func(i basics.AssetIndex) (basics.Address, bool) {
+			a, ok, _ := l.GetCreatorForRound(0, basics.CreatableIndex(i), basics.AssetCreatable)
+			return a, ok
+		})
 }
 
 const (
@@ -281,7 +356,29 @@ func (u *vc18U) snap(ev *BlockEvaluator) []interface{} {
 	for _, x := range lss {
 		leases = append(leases, vL(x.s, x.l, x.e))
 	}
-	return vL(table, mods, txids, leases, ev.state.txnCount, ev.state.feesCollected.Raw, len(ev.block.Payset))
+	av, cr := u.aview(
+		func(a basics.Address, i basics.AssetIndex) (basics.AssetParams, bool) {
+			p, ok, err := ev.state.GetAssetParams(a, i)
+			if err != nil {
+				panic(err)
+			}
+			return p, ok
+		},
+		func(a basics.Address, i basics.AssetIndex) (basics.AssetHolding, bool) {
+			h, ok, err := ev.state.GetAssetHolding(a, i)
+			if err != nil {
+				panic(err)
+			}
+			return h, ok
+		},
+		func(i basics.AssetIndex) (basics.Address, bool) {
+			a, ok, err := ev.state.GetCreator(basics.CreatableIndex(i), basics.AssetCreatable)
+			if err != nil {
+				panic(err)
+			}
+			return a, ok
+		})
+	return vL(table, mods, txids, leases, ev.state.txnCount, ev.state.feesCollected.Raw, len(ev.block.Payset), av, cr)
 }
 
 // error classes: keep in sync with coq/model/EvalCow.v (E_*)
@@ -505,8 +602,10 @@ func (u *vc18U) genTx(ev *BlockEvaluator, rnd basics.Round) vc18Tx {
 	if bal > minb+tx.Fee.Raw {
 		spendable = bal - minb - tx.Fee.Raw
 	}
-	kind := r.Intn(20)
+	kind := r.Intn(20 + u.assetWeight)
 	switch {
+	case kind >= 20: // asset transaction
+		s = u.genAsset(ev, &tx, s)
 	case kind < 13: // payment
 		tx.Type = protocol.PaymentTx
 		rc := r.Intn(len(u.addrs))
@@ -573,6 +672,161 @@ func (u *vc18U) genTx(ev *BlockEvaluator, rnd basics.Round) vc18Tx {
 		}
 	}
 	return vc18Tx{tx: tx, signer: u.signerFor(ev, s)}
+}
+
+func vc18Mod(a, b uint64) uint64 {
+	if b == 0 {
+		return a
+	}
+	return a % b
+}
+
+// pick an account index satisfying pred, or -1
+func (u *vc18U) pick(pred func(i int) bool) int {
+	var c []int
+	for i := range u.addrs {
+		if pred(i) {
+			c = append(c, i)
+		}
+	}
+	if len(c) == 0 {
+		return -1
+	}
+	return c[u.r.Intn(len(c))]
+}
+
+func (u *vc18U) maybeAddr(zeroOneIn int) basics.Address {
+	if u.r.Intn(zeroOneIn) == 0 {
+		return basics.Address{}
+	}
+	return u.addrs[u.user()]
+}
+
+// an asset transaction; may move the sender to the account that can issue it.  Choices are
+// deliberately sloppy (wrong manager, receiver not opted in, frozen holdings, creator closing
+// out, ...) so that the error paths of apply/asset.go are exercised as well.
+func (u *vc18U) genAsset(ev *BlockEvaluator, tx *transactions.Transaction, s int) int {
+	r := u.r
+	hold := func(i int, id uint64) (basics.AssetHolding, bool) {
+		h, ok, _ := ev.state.GetAssetHolding(u.addrs[i], basics.AssetIndex(id))
+		return h, ok
+	}
+	var live []uint64
+	for _, id := range u.aids {
+		if _, ok, _ := ev.state.GetCreator(basics.CreatableIndex(id), basics.AssetCreatable); ok {
+			live = append(live, id)
+		}
+	}
+	op := r.Intn(10)
+	if len(live) == 0 && r.Intn(6) != 0 {
+		op = 0
+	}
+	id := uint64(0)
+	var params basics.AssetParams
+	if len(live) > 0 {
+		id = live[r.Intn(len(live))]
+		c, _, _ := ev.state.GetCreator(basics.CreatableIndex(id), basics.AssetCreatable)
+		params, _, _ = ev.state.GetAssetParams(c, basics.AssetIndex(id))
+	} else if len(u.aids) > 0 && r.Bool() {
+		id = u.aids[r.Intn(len(u.aids))] // destroyed or never created
+	} else {
+		id = 4242
+	}
+	to := func(a basics.Address) {
+		if !a.IsZero() && r.Intn(8) != 0 {
+			tx.Sender = a
+			s = u.id(a) - 1
+		}
+	}
+	switch op {
+	case 0, 1: // create
+		tx.Type = protocol.AssetConfigTx
+		tx.AssetParams = basics.AssetParams{Total: []uint64{0, 1, 1000, 1000000, ^uint64(0)}[r.Intn(5)], DefaultFrozen: r.Intn(5) == 0,
+			Manager: u.maybeAddr(6), Reserve: u.maybeAddr(3), Freeze: u.maybeAddr(3), Clawback: u.maybeAddr(3)}
+		if r.Intn(3) == 0 {
+			tx.AssetParams.Manager = tx.Sender
+		}
+		if r.Intn(4) == 0 {
+			tx.AssetParams.UnitName, tx.AssetParams.Decimals = "vc", uint32(r.Intn(5))
+		}
+	case 2, 3: // opt in
+		tx.Type = protocol.AssetTransferTx
+		tx.XferAsset = basics.AssetIndex(id)
+		tx.AssetReceiver = tx.Sender
+	case 4, 5: // transfer from a holder
+		tx.Type = protocol.AssetTransferTx
+		tx.XferAsset = basics.AssetIndex(id)
+		if h := u.pick(func(i int) bool { x, ok := hold(i, id); return ok && x.Amount > 0 }); h >= 0 {
+			to(u.addrs[h])
+		}
+		h, _ := hold(s, id)
+		switch r.Intn(4) {
+		case 0:
+			tx.AssetAmount = h.Amount
+		case 1:
+			tx.AssetAmount = h.Amount + 1
+		default:
+			tx.AssetAmount = vc18Mod(r.U64(), h.Amount/2+2)
+		}
+		if rc := u.pick(func(i int) bool { _, ok := hold(i, id); return ok }); rc >= 0 && r.Intn(5) != 0 {
+			tx.AssetReceiver = u.addrs[rc]
+		} else {
+			tx.AssetReceiver = u.addrs[u.user()]
+		}
+	case 6: // clawback
+		tx.Type = protocol.AssetTransferTx
+		tx.XferAsset = basics.AssetIndex(id)
+		to(params.Clawback)
+		if h := u.pick(func(i int) bool { x, ok := hold(i, id); return ok && x.Amount > 0 }); h >= 0 {
+			tx.AssetSender = u.addrs[h]
+			x, _ := hold(h, id)
+			tx.AssetAmount = vc18Mod(r.U64(), x.Amount+2)
+		} else {
+			tx.AssetSender = u.addrs[u.user()]
+		}
+		if rc := u.pick(func(i int) bool { _, ok := hold(i, id); return ok }); rc >= 0 {
+			tx.AssetReceiver = u.addrs[rc]
+		} else {
+			tx.AssetReceiver = u.addrs[u.user()]
+		}
+	case 7: // close out
+		tx.Type = protocol.AssetTransferTx
+		tx.XferAsset = basics.AssetIndex(id)
+		if h := u.pick(func(i int) bool { _, ok := hold(i, id); return ok && i > 1 }); h >= 0 {
+			to(u.addrs[h])
+		}
+		h, _ := hold(s, id)
+		if r.Bool() {
+			tx.AssetAmount = vc18Mod(r.U64(), h.Amount+1)
+			tx.AssetReceiver = u.addrs[u.user()]
+		}
+		if rc := u.pick(func(i int) bool { _, ok := hold(i, id); return ok && i != s }); rc >= 0 && r.Intn(4) != 0 {
+			tx.AssetCloseTo = u.addrs[rc]
+		} else {
+			tx.AssetCloseTo = u.addrs[u.user()]
+		}
+	case 8: // freeze / unfreeze
+		tx.Type = protocol.AssetFreezeTx
+		tx.FreezeAsset = basics.AssetIndex(id)
+		to(params.Freeze)
+		if h := u.pick(func(i int) bool { _, ok := hold(i, id); return ok }); h >= 0 && r.Intn(6) != 0 {
+			tx.FreezeAccount = u.addrs[h]
+		} else {
+			tx.FreezeAccount = u.addrs[u.user()]
+		}
+		tx.AssetFrozen = r.Intn(3) != 0
+	default: // reconfigure or destroy
+		tx.Type = protocol.AssetConfigTx
+		tx.ConfigAsset = basics.AssetIndex(id)
+		to(params.Manager)
+		if r.Intn(3) != 0 {
+			tx.AssetParams = basics.AssetParams{Manager: u.maybeAddr(8), Reserve: u.maybeAddr(3), Freeze: u.maybeAddr(3), Clawback: u.maybeAddr(3)}
+			if r.Intn(3) != 0 {
+				tx.AssetParams.Manager = params.Manager
+			}
+		}
+	}
+	return s
 }
 
 // failure kinds injected into one member of a group
@@ -804,6 +1058,9 @@ func (u *vc18U) genGroup(ev *BlockEvaluator, rnd basics.Round, faultPct int, inB
 	}
 	for i := range txs {
 		stxs[i] = txs[i].tx.Sign(u.keys[txs[i].signer])
+		if txs[i].tx.Type == protocol.AssetConfigTx && txs[i].tx.ConfigAsset == 0 {
+			u.addAid(ev.state.Counter() + uint64(i) + 1) // the index this creation gets if the group is accepted
+		}
 	}
 	return stxs, fault, pos
 }
@@ -841,6 +1098,12 @@ func (u *vc18U) describe(ev *BlockEvaluator, stxs []transactions.SignedTxn) []in
 		case protocol.KeyRegistrationTx:
 			body = vL(vSym("keyreg"), vc18KeyID(t.VotePK[:]), vc18KeyID(t.SelectionPK[:]), vc18KeyID(t.StateProofPK[:]),
 				uint64(t.VoteFirst), uint64(t.VoteLast), t.VoteKeyDilution, t.Nonparticipation)
+		case protocol.AssetConfigTx:
+			body = append(vL(vSym("acfg"), uint64(t.ConfigAsset)), u.aparams(t.AssetParams)...)
+		case protocol.AssetTransferTx:
+			body = vL(vSym("axfer"), uint64(t.XferAsset), t.AssetAmount, u.id(t.AssetSender), u.id(t.AssetReceiver), u.id(t.AssetCloseTo))
+		case protocol.AssetFreezeTx:
+			body = vL(vSym("afrz"), uint64(t.FreezeAsset), u.id(t.FreezeAccount), t.AssetFrozen)
 		default:
 			body = vL(vSym("other"))
 		}
@@ -854,6 +1117,7 @@ func (u *vc18U) describe(ev *BlockEvaluator, stxs []transactions.SignedTxn) []in
 type vc18Opts struct {
 	universes, blocks, groups int // per universe: blocks; per block: up to groups
 	faultPct                  int
+	assetWeight               int
 	file                      string
 	salt                      uint64
 }
@@ -865,6 +1129,7 @@ func vc18Run(t *testing.T, o vc18Opts) {
 	st := map[string]int{}
 	for un := 0; un < o.universes; un++ {
 		u := vc18NewUniverse(t, r, st)
+		u.assetWeight = o.assetWeight
 		var prevBlock [][]transactions.SignedTxn
 		for b := 0; b < o.blocks && !u.dead; b++ {
 			prevBlock = u.block(t, out, o, prevBlock)
@@ -894,6 +1159,7 @@ func (u *vc18U) block(t *testing.T, out *vOut, o vc18Opts, prevBlock [][]transac
 			baseTx = append(baseTx, i)
 		}
 	}
+	baseAssets, _ := u.ledgerAview()
 	ru := l.totals.RewardUnits()
 	ev, err := StartEvaluator(l, hdr, EvaluatorOptions{Validate: true, Generate: true})
 	if err != nil {
@@ -945,8 +1211,9 @@ func (u *vc18U) block(t *testing.T, out *vOut, o vc18Opts, prevBlock [][]transac
 	// still written -- the per-group observations tell what went wrong -- and the universe ends.
 	giveUp := func(why string, err error) [][]transactions.SignedTxn {
 		st["block_refused_"+why]++
-		end := vL(vL(), vL(), 0, 0, 19, u.ledgerTable())
-		out.Case(vSym("blk"), vc18Params(l.proto), hd, base, baseTx, startObs, groups, end)
+		fav, fcr := u.ledgerAview()
+		end := vL(vL(), vL(), 0, 0, 19, u.ledgerTable(), fav, fcr)
+		out.Case(vSym("blk"), vc18Params(l.proto), hd, base, baseTx, baseAssets, u.aidList(), startObs, groups, end)
 		u.dead = true
 		t.Logf("block %d refused (%s): %v", rnd, why, err)
 		return nil
@@ -988,12 +1255,14 @@ func (u *vc18U) block(t *testing.T, out *vOut, o vc18Opts, prevBlock [][]transac
 		st["blocks_with_absent"]++
 	}
 	l.add(blk, delta)
-	end := vL(expired, absent, u.id(blk.Proposer()), blk.ProposerPayout().Raw, endCode, u.ledgerTable())
-	out.Case(vSym("blk"), vc18Params(l.proto), hd, base, baseTx, startObs, groups, end)
+	fav, fcr := u.ledgerAview()
+	end := vL(expired, absent, u.id(blk.Proposer()), blk.ProposerPayout().Raw, endCode, u.ledgerTable(), fav, fcr)
+	out.Case(vSym("blk"), vc18Params(l.proto), hd, base, baseTx, baseAssets, u.aidList(), startObs, groups, end)
 	return append(prevBlock, inBlock...)
 }
 
 func TestVerifC18(t *testing.T) {
 	vc18Run(t, vc18Opts{universes: vEnvInt("VERIF_C18_UNIVERSES", 12), blocks: vEnvInt("VERIF_C18_BLOCKS", 6),
-		groups: vEnvInt("VERIF_C18_GROUPS", 10), faultPct: vEnvInt("VERIF_C18_FAULTPCT", 25), file: "cases_c18.txt", salt: 0xC18})
+		groups: vEnvInt("VERIF_C18_GROUPS", 10), faultPct: vEnvInt("VERIF_C18_FAULTPCT", 25), assetWeight: vEnvInt("VERIF_C18_ASSETS", 8),
+		file: "cases_c18.txt", salt: 0xC18})
 }
